@@ -553,6 +553,8 @@ fn on_batch(mut action: ActionHandler) -> (ActionHandler, u64, u32) {
             apply_change(c);
         }
     }
+    // what the handler is shown: the jobs Watchexec supervises as of this invocation
+    log(Ev::Note { what: "listed-jobs", a: action.list_jobs().count() as i64, b: n as i64 });
     for (ji, plan) in scn.jobs.iter().enumerate() {
         if plan.at_batch == n {
             let jobno = ji as u8;
